@@ -134,6 +134,7 @@ struct Run {
     bool block_open = false;
     std::string payload;       // expected unit payload (items joined as the model says)
     bool unit_pushed = false;
+    int large_arrays_emitted = 0;
     std::unique_ptr<World> inner;   // a second, independent instrument context (a module behind this mainframe), served from inside handlers
     Run(World &w_, Verdict &v_, bool c) : w(w_), v(v_), c17(c) {}
 
@@ -475,6 +476,9 @@ struct Run {
                     int et = (int) clampl(it.arg(1), 0, E_NTYPES - 1);
                     int fmtv = (int) clampl(it.arg(2), 0, 2);
                     size_t cnt = (size_t) clampl(it.arg(3), 0, 70000);
+                    // a plan that has both a very large array and a message of hundreds of units would emit it hundreds of times
+                    // (tens of seconds per run): after the fourth large array of a run the rest are short
+                    if (cnt > 2000 && ++large_arrays_emitted > 4) cnt = 100;
                     uint64_t seed = (uint64_t) it.arg(4);
                     size_t sz = ELEM_SIZE[et];
                     std::vector<uint64_t> bits(cnt);
